@@ -39,11 +39,14 @@ def compare(exp, got):
         return "output_count"
     ids = []
     for e, g in zip(exp, got):
-        for fld in ("seqid", "start", "end", "strand", "ftype", "frame"):
-            if e[fld] != g[fld]:
-                return "output_" + fld
         if e["kids"] != g["kids"]:
-            return "children"
+            return "children" if len(e["kids"]) and len(g["kids"]) else "output_count"
+        merged = bool(e["kids"])
+        for fld in ("seqid", "start", "end", "strand", "ftype") + (() if merged else ("frame",)):
+            if e[fld] != g[fld]:
+                if merged and fld in ("seqid", "strand", "ftype") and not e.get("agree_" + fld, True):
+                    continue        # the members disagree on this column: the statement does not say what the merged record carries
+                return "output_" + fld
         if e["kids"]:
             if g["same_object"]:
                 return "merged_output_is_an_input_object"
